@@ -10,6 +10,7 @@ import MinizProof.Model.DeflStream
 import MinizProof.Model.InflStream
 import MinizProof.Model.Core
 import MinizProof.Model.DeflOut
+import MinizProof.Model.VecLoops
 namespace Driver
 open Spec
 
@@ -140,7 +141,9 @@ def opEnc (a : Acc) (ln : Nat) (l : Line) : Acc := Id.run do
         a := a.fail ln l "window" s!"header declares window {declared} > 2^max({wb},8)"
       if ts.maxDist > declared then
         a := a.fail ln l "window" s!"match distance {ts.maxDist} exceeds declared window {declared}"
-    if checks.contains "ratio" && comp.size * 4 > inp.size * 3 then
+    -- "well under its own size": at most 3/4 of the input plus 64 bytes of framing (zlib header and
+    -- trailer, block header, a dynamic code description of up to ~50 bytes for random halves)
+    if checks.contains "ratio" && comp.size * 4 > inp.size * 3 + 256 then
       a := a.fail ln l "ratio" s!"repeated input of {inp.size} bytes compressed to {comp.size}"
     if checks.contains "header" && zlib then
       if !zlibHeaderValid d.cmf d.flg then
@@ -409,6 +412,37 @@ def opStg (a : Acc) (ln : Nat) (l : Line) : Acc := Id.run do
     idx := idx + 1
   return a
 
+/-- `VECI` / `VECD`: one real `decompress_to_vec*` / `compress_to_vec*` call with the inner calls the
+    hook recorded (`calls` = `inLeft:bufLen:outPos:status:consumed:written;…`), replayed through
+    `Model.Vec.decompressToVec` / `compressToVec`: the arguments of every inner call, their number and
+    the final result (Ok length / error status and partial length) must agree. -/
+def opVec (a : Acc) (ln : Nat) (l : Line) (infl : Bool) : Acc := Id.run do
+  let evs : List (List Int) := if l.get "calls" == "-" || l.get "calls" == "" then []
+    else ((l.get "calls").splitOn ";").map (fun t => (t.splitOn ":").map (·.toInt?.getD 0))
+  let script : List Model.Vec.Resp := evs.map (fun e => { st := e.getD 3 0, cin := (e.getD 4 0).toNat, cout := (e.getD 5 0).toNat })
+  let args : List Model.Vec.Call := evs.map (fun e => ((e.getD 0 0).toNat, (e.getD 1 0).toNat, (e.getD 2 0).toNat))
+  let mut a := a.bump (if infl then "veci" else "vecd")
+  a := a.bump "vec_inner_calls" script.length
+  if infl then
+    match Model.Vec.decompressToVec (l.nat "in") (l.nat "limit") script with
+    | .ok len calls =>
+      if calls != args then a := a.diff ln l "vec_calls" s!"model calls {calls}, implementation {args}"
+      if l.int "ok" != 1 || l.nat "len" != len then
+        a := a.diff ln l "vec_result" s!"model Ok({len}), implementation ok={l.int "ok"} len={l.nat "len"} st={l.int "st"}"
+    | .err st len calls =>
+      if calls != args then a := a.diff ln l "vec_calls" s!"model calls {calls}, implementation {args}"
+      if l.int "ok" != 0 || l.int "st" != st || l.nat "len" != len then
+        a := a.diff ln l "vec_result" s!"model Err({st}, partial {len}), implementation ok={l.int "ok"} st={l.int "st"} len={l.nat "len"}"
+    | .stuck calls => a := a.diff ln l "vec_calls" s!"model wants another inner call after {calls.length - 1}; implementation made {args.length}"
+  else
+    match Model.Vec.compressToVec (l.nat "in") script with
+    | .ok len calls =>
+      if calls != args then a := a.diff ln l "vec_calls" s!"model calls {calls}, implementation {args}"
+      if l.nat "len" != len then a := a.diff ln l "vec_result" s!"model vec of {len} bytes, implementation {l.nat "len"}"
+    | .panic _ => a := a.diff ln l "vec_result" "model reaches the panic arm, implementation returned"
+    | .stuck calls => a := a.diff ln l "vec_calls" s!"model wants another inner call after {calls.length - 1}; implementation made {args.length}"
+  return a
+
 /-- `INEW`: a fresh decoder object and its output buffer (filled with the harness's known pattern). -/
 def opInew (a : Acc) (l : Line) : Acc :=
   let id := l.nat "id"
@@ -471,6 +505,8 @@ def dispatch (a : Acc) (ln : Nat) (l : Line) : Acc :=
   | "DFL" => opDfl a ln l
   | "IFL" => opIfl a ln l
   | "STG" => opStg a ln l
+  | "VECI" => opVec a ln l true
+  | "VECD" => opVec a ln l false
   | "INEW" => opInew a l
   | "ICALL" => opIcall a ln l
   | "" => a
